@@ -3,10 +3,13 @@ import AcraModel.CrossClient.Hash
 import AcraModel.CrossClient.Context
 import AcraModel.CrossClient.Keys
 import AcraModel.CrossClient.Token
+import AcraModel.CrossClient.TokenColumn
 import AcraModel.CrossClient.Tls
 import AcraModel.CrossClient.TlsIdentity
 import AcraModel.CrossClient.TlsIdentityInj
 import AcraModel.CrossClient.TlsServer
+import AcraModel.CrossClient.TlsConn
+import AcraModel.CrossClient.ServerOps
 import AcraModel.CrossClient.BoxLaws
 import AcraModel.CrossClient.Box45
 import AcraModel.CrossClient.NoPanic
@@ -282,6 +285,115 @@ theorem cross_client_detokenize_own {c : CryptoOps} (ops : List TokOp) (b tok r 
   rcases cross_client_detokenize ops b tok r ty h with h | ⟨op, hop, hc, hv⟩
   · exact Or.inl h
   · exact Or.inr ⟨op, hop, hnc op hop hc, hv⟩
+
+/-! ## tokenized columns behind the SQL proxies: which identity reaches the tokenizer -/
+
+/-- **The read path takes the identity of the SESSION.** `TokenProcessor.OnColumn` builds exactly one
+`TokenContext`; its `ClientID` element is `accessContext.GetClientID()`, `accessContext` being
+`base.AccessContextFromContext(ctx)` and nothing else; that context is what it hands to `Detokenize`.
+(A client id taken from the column setting – `columnSetting.ClientID()` – changes this table.) Regenerated. -/
+theorem fact_token_read_uses_session_id :
+    TokenColumn.readContextLiterals = 1 ∧
+    TokenColumn.readContextClientID = [("init", "accessContext.GetClientID()")] ∧
+    TokenColumn.readLocals = [("accessContext", [("init", "base.AccessContextFromContext(ctx)")])] ∧
+    TokenColumn.readContextVar = "tokenContext" ∧
+    TokenColumn.readDetokenizeCall = ["p.tokenizer.Detokenize", "data", "tokenContext", "columnSetting"] ∧
+    readSource = .session := by decide
+
+/-- **The write path.** `TokenEncryptor.EncryptWithClientID` puts its own `clientID` parameter into the token
+context it hands to `Tokenize`; every call of an `EncryptWithClientID` in the source tree either hands the
+caller's own client-id parameter on, or passes "the column's `client_id` when the encryptor config names one,
+otherwise the session's" – and the sites that choose are the five statement / parameter / search-literal
+encryptors of the two proxies. Regenerated. -/
+theorem fact_token_write_sites :
+    TokenColumn.encryptorParams.head? = some "clientID" ∧
+    TokenColumn.encryptorContextClientID = [("param", "clientID")] ∧
+    TokenColumn.encryptorTokenizeCall = ["e.tokenizer.Tokenize", "data", "tokenContext", "setting"] ∧
+    encryptorSource = .param ∧
+    (∀ r ∈ TokenColumn.writeCallSites, idSourceOf r.2.2 = .param ∨ idSourceOf r.2.2 = .columnOrSession) ∧
+    choosingWriteSites.map (·.1) = [
+      "decryptor/mysql/prepared_statement_sql_observer.go:PreparedStatementsQuery.handleColumnFromSetArg",
+      myWriteSite, pgWriteSite,
+      "pseudonymization/mysql_tokenize_query.go:MySQLTokenizeQuery.getTokenizerDataWithSetting",
+      "pseudonymization/postgresql_tokenize_query.go:PostgreSQLTokenizeQuery.getTokenizerDataWithSetting"] ∧
+    writeSourceOf pgWriteSite = .columnOrSession ∧ writeSourceOf myWriteSite = .columnOrSession := by decide
+
+/-- **`proxy_token_read_is_session`.** For EVERY column setting – with or without an explicit `client_id` – and
+every session identity `b`, the read path of a tokenized column de-tokenizes under `b`: the identity used is
+the session's, never the column's. -/
+theorem proxy_token_read_is_session (c : CryptoOps) (st : TokStore) (b : Bytes) (col : ColSetting) (data : Bytes) :
+    onColumnToken c st b (some col) data = (if col.tokenized then detokenize c st b data col.ty else .ok data) := by
+  unfold onColumnToken onColumnTokenWith
+  rw [fact_token_read_uses_session_id.2.2.2.2.2]
+  rfl
+
+/-- … and every write site of the proxies tokenizes under `ownerOf session column`: the client the column is
+configured for, else the client of the writing session – for both statement encryptors. -/
+theorem proxy_token_write_is_owner (c : CryptoOps) (st : TokStore) (session : Bytes) (col : ColSetting) (v : Bytes) (cands : List Bytes) :
+    ∀ site ∈ [pgWriteSite, myWriteSite],
+      proxyWrite c (writeSourceOf site) st session col v cands =
+        (if col.tokenized then
+          (if col.consistent then tokenize c st (ownerOf session col) v col.ty cands else anonymize c st (ownerOf session col) v col.ty cands)
+         else .ok (st, v)) := by
+  intro site hs
+  have hsrc : writeSourceOf site = .columnOrSession := by
+    simp only [List.mem_cons, List.not_mem_nil, or_false] at hs
+    rcases hs with h | h
+    · rw [h]; exact fact_token_write_sites.2.2.2.2.2.2.1
+    · rw [h]; exact fact_token_write_sites.2.2.2.2.2.2.2
+  unfold proxyWrite tokenEncrypt
+  rw [hsrc, fact_token_write_sites.2.2.2.1]
+  rfl
+
+/-- **`cross_client_column_detokenize`.** After ANY history of values written through the proxies (any
+sessions, any column settings – with or without `client_id`, consistent or not, any token type –, any random
+draws) starting from an empty token storage, a session of identity `b` that selects a tokenized column –
+whatever that column's configured `client_id` is – and finds `tok` there receives either `tok` itself,
+unchanged, or a value whose OWNER (`ownerOf`: the client the written column was configured for, else the writing
+session's client) has the same context digest as `b`. -/
+theorem cross_client_column_detokenize {c : CryptoOps} (ops : List ColOp) (b : Bytes) (col : ColSetting) (tok r : Bytes)
+    (h : onColumnToken c (runCol c .columnOrSession [] ops) b (some col) tok = .ok r) :
+    r = tok ∨ ∃ op, op ∈ ops ∧ op.col.tokenized = true ∧ aggCtx c (ownerOf op.session op.col) = aggCtx c b ∧ op.v = r := by
+  rw [proxy_token_read_is_session] at h
+  by_cases ht : col.tokenized = true
+  · rw [if_pos ht] at h
+    have hinv : OwnedCol c .columnOrSession (ops.reverse ++ []) (runCol c .columnOrSession [] ops) :=
+      runCol_owned fact_token_write_sites.2.2.2.1 ops [] [] (by intro e he; cases he)
+    rcases detokenize_owned hinv h with h1 | ⟨op, hop, h0, h1, h2⟩
+    · exact Or.inl h1
+    · exact Or.inr ⟨op, by simpa using hop, h0, h1, h2⟩
+  · rw [if_neg ht] at h
+    cases h
+    exact Or.inl rfl
+
+/-- … with a collision-free SHA-256 on the identities at hand: `b` gets the token back or a value that `b` owns. -/
+theorem cross_client_column_detokenize_own {c : CryptoOps} (ops : List ColOp) (b : Bytes) (col : ColSetting) (tok r : Bytes)
+    (hnc : ∀ op, op ∈ ops → aggCtx c (ownerOf op.session op.col) = aggCtx c b → ownerOf op.session op.col = b)
+    (h : onColumnToken c (runCol c .columnOrSession [] ops) b (some col) tok = .ok r) :
+    r = tok ∨ ∃ op, op ∈ ops ∧ ownerOf op.session op.col = b ∧ op.v = r := by
+  rcases cross_client_column_detokenize ops b col tok r h with h | ⟨op, hop, _, hc, hv⟩
+  · exact Or.inl h
+  · exact Or.inr ⟨op, hop, hnc op hop hc, hv⟩
+
+/-- **The case of the property.** No value of the history is owned by an identity whose context digest equals
+`b`'s (they were written into columns configured with another client's id – by whatever session, `b`'s included –
+or into columns without `client_id` by other clients' sessions). Then a session of `b` reading ANY tokenized
+column – in particular one configured with `client_id: a` – gets what is stored back unchanged: never a plaintext. -/
+theorem cross_client_column_token_back {c : CryptoOps} (ops : List ColOp) (b : Bytes) (col : ColSetting) (tok r : Bytes)
+    (hnc : ∀ op, op ∈ ops → op.col.tokenized = true → aggCtx c (ownerOf op.session op.col) ≠ aggCtx c b)
+    (h : onColumnToken c (runCol c .columnOrSession [] ops) b (some col) tok = .ok r) : r = tok := by
+  rcases cross_client_column_detokenize ops b col tok r h with h | ⟨op, hop, ht, hc, _⟩
+  · exact h
+  · exact absurd hc (hnc op hop ht)
+
+/-- … under idealised collision freedom of SHA-256 (`HashInj`) "owned by someone else" is enough: for every
+owner `a ≠ b` of every value, the session of `b` gets the stored token back. -/
+theorem cross_client_column_token_back_inj {c : CryptoOps} (hi : HashInj c) (ops : List ColOp) (b : Bytes) (col : ColSetting) (tok r : Bytes)
+    (hother : ∀ op, op ∈ ops → op.col.tokenized = true → ownerOf op.session op.col ≠ b)
+    (h : onColumnToken c (runCol c .columnOrSession [] ops) b (some col) tok = .ok r) : r = tok := by
+  apply cross_client_column_token_back ops b col tok r _ h
+  intro op hop ht heq
+  exact hother op hop ht (List.append_cancel_left (hi.sha_inj _ _ heq))
 
 /-! ## stored keys are bound to their owner -/
 
@@ -628,6 +740,220 @@ theorem tls_server_cross_client {c : CryptoOps} (hl : SealLaws c) (hc : SealComm
       rw [if_pos ⟨fact_every_registration_wrapped reg (regOf_mem hr), rfl⟩]
       exact tls_cross_client hl hc hm hp hs hab hown row (List.mem_of_find?_eq_some hw) forged
 
+/-! ## which certificate of a handshake is the identity of the connection (`network/tls_wrapper.go`) -/
+
+/-- **Every site that turns a `tls.ConnectionState` into the certificate of the connection's identity takes the
+leaf of the first VERIFIED chain.** In the whole source tree the two certificate lists of a connection state are
+read by two functions only – `TLSConnectionWrapper.ServerHandshake` (gRPC transport credentials) and
+`GetClientIDFromTLSConn` (WrapServer, i.e. AcraServer and the HTTP API, and `GetClientIDFromConnection` on a bare
+`*tls.Conn`) –, both read `VerifiedChains` only (never `PeerCertificates`, the list the peer controls), both
+take element `[0][0]` behind the guards `len(VerifiedChains) == 0 || len(VerifiedChains[0]) == 0`; the only other
+call of an identity sink hands the certificate parameter of `getClientIDFromCertificate` on, after validating it.
+Regenerated from the source on every run. -/
+theorem fact_identity_certificate_is_verified_leaf :
+    TlsConnState.connStateReads =
+      [(grpcSiteName, "len(VerifiedChains)"), (grpcSiteName, "len(VerifiedChains[0])"), (grpcSiteName, "VerifiedChains[0][0]"),
+       (connSiteName, "len(VerifiedChains)"), (connSiteName, "len(VerifiedChains[0])"), (connSiteName, "VerifiedChains[0][0]")] ∧
+    TlsConnState.identitySinks = ["ExtractClientID", "getClientIDFromCertificate"] ∧
+    (∀ st ∈ certSites,
+      (certChoiceOf st.origin = .verified 0 0 ∧ st.guards = [["len(VerifiedChains)==0", "len(VerifiedChains[0])==0"]]) ∨
+      (certChoiceOf st.origin = .param ∧ st.fn = "network/tls_wrapper.go:getClientIDFromCertificate")) ∧
+    stateSites.map (·.fn) = [grpcSiteName, connSiteName] ∧
+    grpcSite.callee = "wrapper.clientIDExtractor.ExtractClientID" ∧ connSite.callee = "getClientIDFromCertificate" ∧
+    helperValidates = true := by decide
+
+/-- **`connection_identity_is_leaf`.** After a handshake (`Handshaken`: the contract of crypto/tls) in which the
+client's own certificate – the first one it sent – is `l`, every site that derives the identity of the connection
+from the connection state runs its sink on `l`: whatever ELSE the peer appended to its certificate list
+(intermediates, a CA, another client's certificate) and whatever the rest of the verified chains looks like. -/
+theorem connection_identity_is_leaf (e : Extractor) {s : TlsState} (h : Handshaken s) {l : ConnCert} (hl : leafOf s = some l) :
+    ∀ st ∈ stateSites, siteIdentity st e s = sinkRun st.callee e l := by
+  intro st hst
+  have hmem : st ∈ certSites := (List.mem_filter.mp hst).1
+  have hnp : certChoiceOf st.origin ≠ .param := by
+    have := (List.mem_filter.mp hst).2
+    simpa using this
+  rcases fact_identity_certificate_is_verified_leaf.2.2.1 st hmem with ⟨ho, hg⟩ | ⟨hp, _⟩
+  · unfold siteIdentity
+    rw [siteCert_verified_leaf ho hg h hl]
+  · exact absurd hp hnp
+
+/-- the gRPC transport credentials: the id is the extractor's id of the client's own certificate -/
+theorem grpc_connection_identity (e : Extractor) {s : TlsState} (h : Handshaken s) {l : ConnCert} (hl : leafOf s = some l) :
+    siteIdentity grpcSite e s = extractClientID e.hash e.mode (some l.cert) := by
+  rw [connection_identity_is_leaf e h hl grpcSite (by decide)]
+  unfold sinkRun
+  rw [fact_identity_certificate_is_verified_leaf.2.2.2.2.1]
+  rfl
+
+/-- WrapServer / `GetClientIDFromTLSConn` (AcraServer, HTTP API): the same, after
+`ValidateClientsAuthenticationCertificate` (no CA certificate, an authentication key usage) -/
+theorem conn_connection_identity (e : Extractor) {s : TlsState} (h : Handshaken s) {l : ConnCert} (hl : leafOf s = some l) :
+    siteIdentity connSite e s = (if validateCert l then extractClientID e.hash e.mode (some l.cert) else .err) := by
+  rw [connection_identity_is_leaf e h hl connSite (by decide)]
+  unfold sinkRun
+  rw [fact_identity_certificate_is_verified_leaf.2.2.2.2.2.1, fact_identity_certificate_is_verified_leaf.2.2.2.2.2.2]
+  cases validateCert l <;> rfl
+
+/-- **Two clients behind the same intermediate CA get different ids.** Two handshakes whose clients' own
+certificates have different identifiers (distinguished name / serial number), whatever both appended – e.g. the
+SAME intermediate certificate –, through any two entry points: the client ids differ (unless SHA-512 collides on
+the two identifiers). -/
+theorem tls_chain_leaves_distinct_ids (e : Extractor) {s1 s2 : TlsState} (h1 : Handshaken s1) (h2 : Handshaken s2)
+    {l1 l2 : ConnCert} (hl1 : leafOf s1 = some l1) (hl2 : leafOf s2 = some l2) {i1 i2 : Bytes}
+    (hi1 : certIdentifier e.mode (some l1.cert) = .ok i1) (hi2 : certIdentifier e.mode (some l2.cert) = .ok i2) (hne : i1 ≠ i2)
+    (hnc : NoColl e.hash [i1, i2]) {a b : Bytes} :
+    ∀ st1 ∈ stateSites, ∀ st2 ∈ stateSites, siteIdentity st1 e s1 = .ok a → siteIdentity st2 e s2 = .ok b → a ≠ b := by
+  intro st1 hs1 st2 hs2 ha hb
+  rw [connection_identity_is_leaf e h1 hl1 st1 hs1] at ha
+  rw [connection_identity_is_leaf e h2 hl2 st2 hs2] at hb
+  exact tls_identity_injective_partial e.hash e.mode _ hnc hi1 hi2 (by simp) (by simp) hne (sinkRun_ok ha) (sinkRun_ok hb)
+
+/-- the identity of a connection does not depend on anything but the client's own certificate: two handshakes with
+the same first certificate get the same result at every site, whatever else was sent or verified -/
+theorem connection_identity_ignores_appended (e : Extractor) {s s' : TlsState} (h : Handshaken s) (h' : Handshaken s')
+    {l : ConnCert} (hl : leafOf s = some l) (hl' : leafOf s' = some l) :
+    ∀ st ∈ stateSites, siteIdentity st e s = siteIdentity st e s' := by
+  intro st hst
+  rw [connection_identity_is_leaf e h hl st hst, connection_identity_is_leaf e h' hl' st hst]
+
+/-- deriving the identity of a connection never panics, for ANY connection state (the guards in front of the
+indexing are the ones the indexing needs) -/
+theorem connection_identity_never_panics (e : Extractor) (s : TlsState) : ∀ st ∈ stateSites, siteIdentity st e s ≠ .panic := by
+  intro st hst
+  have hmem : st ∈ certSites := (List.mem_filter.mp hst).1
+  have hnp : certChoiceOf st.origin ≠ .param := by
+    have := (List.mem_filter.mp hst).2
+    simpa using this
+  rcases fact_identity_certificate_is_verified_leaf.2.2.1 st hmem with ⟨ho, hg⟩ | ⟨hp, _⟩
+  · have hsc : siteCert st s ≠ .panic := by
+      unfold siteCert
+      rw [hg, ho]
+      have := verified_guarded_never_panics s st.callee
+      unfold siteCert at this
+      simpa [certChoiceOf] using this
+    unfold siteIdentity
+    cases hc : siteCert st s with
+    | ok c =>
+      simp only []
+      unfold sinkRun
+      split
+      · split
+        · simp
+        · exact extractClientID_never_panics _ _ _
+      · exact extractClientID_never_panics _ _ _
+    | err => simp
+    | panic => exact absurd hc hsc
+  · exact absurd hp hnp
+
+/-- **End to end with certificate chains.** Two TLS clients whose own certificates have different identifiers
+connect to the gRPC server that `NewServer` builds (`UseConnectionClientID`); each sends its certificate followed
+by anything it likes (the same intermediate CA, the OTHER client's certificate, …). The connections get the ids
+`a` and `b` from the transport credentials. A decrypt request over B's connection naming ANY client id is an
+error for every stored value A can decrypt. -/
+theorem tls_server_cross_client_chain {c : CryptoOps} (hl : SealLaws c) (hc : SealCommit c) (hm : MsgCommit c)
+    {pairs syms : History} (hp : Fresh pairs) (hs : Fresh syms) (e : Extractor)
+    {sA sB : TlsState} (hA : Handshaken sA) (hB : Handshaken sB) {lA lB : ConnCert} (hlA : leafOf sA = some lA) (hlB : leafOf sB = some lB)
+    {ia ib a b : Bytes} (hia : certIdentifier e.mode (some lA.cert) = .ok ia) (hib : certIdentifier e.mode (some lB.cert) = .ok ib)
+    (hne : ia ≠ ib) (hnc : NoColl e.hash [ia, ib])
+    (ha : siteIdentity grpcSite e sA = .ok a) (hb : siteIdentity grpcSite e sB = .ok b)
+    {k : Kind} {v m : Bytes} (hown : decryptAs c (storeOf c pairs syms) a k v = .ok m) :
+    ∀ (rpc : String) (forged : Bytes),
+      serverCall true rpc (fun r => decryptAs c (storeOf c pairs syms) r.clientId k r.payload) .err (some b) ⟨forged, v⟩ = .err := by
+  rw [grpc_connection_identity e hA hlA] at ha
+  rw [grpc_connection_identity e hB hlB] at hb
+  exact tls_server_cross_client hl hc hm hp hs e hia hib hne hnc [some lA.cert, some lB.cert] 0 1 rfl rfl
+    (by rw [Extractor.run_eq_map]; simp [ha]) (by rw [Extractor.run_eq_map]; simp [hb]) hown
+
+/-! ## the other RPCs of the gRPC server and the HTTP API run under the identity of the connection -/
+
+/-- the wrapper declares a method for every RPC of the table (none is left to the embedded `Unimplemented…Server`),
+and every RPC of the API – decrypt-type or not – is served by a registration. Regenerated. -/
+theorem fact_all_rpcs_declared_and_served :
+    (∀ r ∈ rpcTable, r.defined = true) ∧
+    (∀ rpc ∈ ["Decrypt", "DecryptSym", "DecryptSearchable", "DecryptSymSearchable", "Encrypt", "EncryptSym", "EncryptSearchable",
+      "EncryptSymSearchable", "GenerateQueryHash", "Tokenize", "Detokenize"], Served rpc) ∧
+    rpcTable.map (·.name) = ["Decrypt", "DecryptSearchable", "DecryptSym", "DecryptSymSearchable", "Detokenize", "Encrypt",
+      "EncryptSearchable", "EncryptSym", "EncryptSymSearchable", "GenerateQueryHash", "Tokenize"] := by decide
+
+/-- **`server_rpc_runs_as_connection`.** On the server `NewServer` builds with `UseConnectionClientID`, EVERY served
+RPC – Tokenize, Detokenize, the Encrypt family and GenerateQueryHash as much as the decrypt family – hands the
+service a request whose client id is the id of the connection, whatever the request named; without a connection
+identity the service is not reached at all. -/
+theorem server_rpc_runs_as_connection {R : Type} {rpc : String} (hs : Served rpc) (svc : Request → R) (e : R) (id x p : Bytes) :
+    serverCall true rpc svc e (some id) ⟨x, p⟩ = svc ⟨id, p⟩ ∧ serverCall true rpc svc e none ⟨x, p⟩ = e :=
+  ⟨serverCall_conn fact_every_registration_wrapped fact_all_rpcs_declared_and_served.1 tls_overrides_all hs svc e id x p,
+   serverCall_noconn fact_every_registration_wrapped fact_all_rpcs_declared_and_served.1 tls_overrides_all rpc svc e ⟨x, p⟩⟩
+
+/-- **Tokens through the server.** After ANY history of Tokenize requests (any connections, naming any client
+ids, any values, any random draws), a Detokenize request over the connection of `b` – naming ANY client id – for
+any token yields the token itself, unchanged, or a value that was tokenized over a CONNECTION whose identity has
+the context digest of `b`. The ids named in the requests play no role. -/
+theorem tls_server_detokenize_cross_client {c : CryptoOps} (ops : List SrvTokOp) (b forged tok r : Bytes) (ty : Nat)
+    (h : serverCall true "Detokenize" (svcDetokenize c (runSrvTok c "Tokenize" [] ops) ty) .err (some b) ⟨forged, tok⟩ = .ok r) :
+    r = tok ∨ ∃ op, op ∈ ops ∧ aggCtx c op.conn = aggCtx c b ∧ op.v = r := by
+  have hT : Served "Tokenize" := fact_all_rpcs_declared_and_served.2.1 _ (by decide)
+  have hD : Served "Detokenize" := fact_all_rpcs_declared_and_served.2.1 _ (by decide)
+  rw [(server_rpc_runs_as_connection hD _ _ b forged tok).1,
+    runSrvTok_eq fact_every_registration_wrapped fact_all_rpcs_declared_and_served.1 tls_overrides_all hT] at h
+  rcases cross_client_detokenize (asTokOps ops) b tok r ty h with h1 | ⟨op, hop, hc, hv⟩
+  · exact Or.inl h1
+  · simp only [asTokOps, List.mem_map] at hop
+    obtain ⟨o, ho, rfl⟩ := hop
+    exact Or.inr ⟨o, ho, hc, hv⟩
+
+/-- **Encrypt-type RPCs.** What an Encrypt / EncryptSym request over the connection of `b` produces – naming ANY
+client id, e.g. `a`'s – is `protect` under `b`'s keys; so whenever `b` can read it back, `a ≠ b` cannot (arbitrary
+fresh key histories): a forged id neither lets `b` write data that looks like `a`'s nor read `a`'s. -/
+theorem tls_server_encrypt_belongs_to_connection {c : CryptoOps} (hl : SealLaws c) (hc : SealCommit c) (hm : MsgCommit c)
+    {pairs syms : History} (hp : Fresh pairs) (hs : Fresh syms) {a b : Bytes} (hab : a ≠ b)
+    (rpc : String) (hrpc : rpc ∈ ["Encrypt", "EncryptSym", "EncryptSearchable", "EncryptSymSearchable"]) (k : Kind) (forged m rnd : Bytes) :
+    serverCall true rpc (svcEncrypt c (storeOf c pairs syms) k rnd) .err (some b) ⟨forged, m⟩ = protect c (storeOf c pairs syms b) k m rnd ∧
+    ∀ p m', serverCall true rpc (svcEncrypt c (storeOf c pairs syms) k rnd) .err (some b) ⟨forged, m⟩ = .ok p →
+      revealAs c (storeOf c pairs syms) b p = .ok m' → revealAs c (storeOf c pairs syms) a p = .err := by
+  have hS : Served rpc := fact_all_rpcs_declared_and_served.2.1 rpc (by
+    simp only [List.mem_cons, List.not_mem_nil, or_false] at hrpc ⊢
+    rcases hrpc with h | h | h | h <;> simp [h])
+  refine ⟨(server_rpc_runs_as_connection hS _ _ b forged m).1, ?_⟩
+  intro p m' _ hb
+  exact cross_client_reveal hl hc hm hp hs (Ne.symm hab) hb
+
+/-- **GenerateQueryHash** over the connection of `b`, naming any client id, is the blind index under `b`'s HMAC
+key – which does not verify under another identity's key unless the HMACs collide (`cross_client_hash`). -/
+theorem tls_server_query_hash_is_connections {c : CryptoOps} (hs : HmacStore) (b forged kb data : Bytes) (hb : hs b = some kb) :
+    serverCall true "GenerateQueryHash" (svcQueryHash c hs) .err (some b) ⟨forged, data⟩ = .ok (generateHash c kb data) := by
+  have hS : Served "GenerateQueryHash" := fact_all_rpcs_declared_and_served.2.1 _ (by decide)
+  rw [(server_rpc_runs_as_connection hS _ _ b forged data).1]
+  simp [svcQueryHash, hb]
+
+/-- **HTTP API: a request cannot name an identity.** For every call of the translator service by an HTTP handler
+the result does not depend on any client id carried in the request: the id is the connection's (or none). -/
+theorem http_request_cannot_name_identity {R : Type} : ∀ row ∈ httpTable, ∀ (svc : Request → R) (conn : ConnId) (x y body : Bytes),
+    httpHandler row svc conn x body = httpHandler row svc conn y body := by
+  intro row hrow svc conn x y body
+  have hf : row.fromConn = true := by
+    simp only [httpTable, List.mem_map] at hrow
+    obtain ⟨t, ht, rfl⟩ := hrow
+    exact fact_http_identity_from_connection t ht
+  exact httpHandler_fromConn row hf svc conn x y body
+
+/-- **HTTP decrypt under another identity.** A decrypt operation of the HTTP API over a TLS connection
+authenticated as `b`, with any client id smuggled into the request, is an error for every stored value `a ≠ b`
+can decrypt. -/
+theorem http_cross_client {c : CryptoOps} (hl : SealLaws c) (hc : SealCommit c) (hm : MsgCommit c)
+    {pairs syms : History} (hp : Fresh pairs) (hs : Fresh syms) {a b : Bytes} (hab : a ≠ b) {k : Kind} {v m : Bytes}
+    (hown : decryptAs c (storeOf c pairs syms) a k v = .ok m) :
+    ∀ row ∈ httpTable, ∀ smuggled : Bytes,
+      httpHandler row (fun r => decryptAs c (storeOf c pairs syms) r.clientId k r.payload) (some b) smuggled v = .err := by
+  intro row hrow smuggled
+  have hf : row.fromConn = true := by
+    simp only [httpTable, List.mem_map] at hrow
+    obtain ⟨t, ht, rfl⟩ := hrow
+    exact fact_http_identity_from_connection t ht
+  unfold httpHandler
+  rw [if_pos hf]
+  exact cross_client_decrypt hl hc hm hp hs hab hown
+
 /-! ## non-vacuity
 
 The hypotheses of the theorems above are jointly satisfiable by concrete, non-trivial instances:
@@ -729,6 +1055,32 @@ example : detokenize boxOps (runTok boxOps [] exTokOps) exA [7, 7, 7] 4 = .ok [1
     detokenize boxOps (runTok boxOps [] exTokOps) exB [8, 8, 8] 4 = .ok [8, 8, 8] ∧
     detokenize boxOps (runTok boxOps [] exTokOps) exA [8, 8, 8] 4 = .ok [3, 3, 3] := by decide
 
+/-- tokenized columns behind the proxies: a session of B writes into a column configured with `client_id: A`
+(the value is A's) and into a column without `client_id` (the value is B's); both draw the same token bytes.
+A reads its value; a third session C gets the token back unchanged from either column; B – who owns a record
+under the very same token bytes – gets its OWN value, from either column, never A's; the hypothesis of
+`cross_client_column_token_back_inj` holds for C. -/
+def exColA : ColSetting := ⟨exA, true, true, 4⟩
+def exColNone : ColSetting := ⟨[], true, false, 4⟩
+def exColPlain : ColSetting := ⟨exA, false, false, 0⟩
+def exC : Bytes := [99, 97, 114, 111, 108]        -- "carol"
+def exColOps : List ColOp := [⟨exB, exColA, [1, 1, 1], [[7, 7, 7]]⟩, ⟨exB, exColNone, [2, 2, 2], [[7, 7, 7]]⟩, ⟨exC, exColPlain, [3, 3, 3], []⟩]
+def exColStore : TokStore := runCol boxOps .columnOrSession [] exColOps
+
+example : ownerOf exB exColA = exA ∧ ownerOf exB exColNone = exB ∧
+    onColumnToken boxOps exColStore exA (some exColA) [7, 7, 7] = .ok [1, 1, 1] ∧
+    onColumnToken boxOps exColStore exB (some exColA) [7, 7, 7] = .ok [2, 2, 2] ∧
+    onColumnToken boxOps exColStore exC (some exColA) [7, 7, 7] = .ok [7, 7, 7] ∧
+    onColumnToken boxOps exColStore exC (some exColNone) [7, 7, 7] = .ok [7, 7, 7] ∧
+    onColumnToken boxOps exColStore exB (some exColNone) [7, 7, 7] = .ok [2, 2, 2] ∧
+    onColumnToken boxOps exColStore exA (some exColPlain) [7, 7, 7] = .ok [7, 7, 7] ∧
+    onColumnToken boxOps exColStore exA none [7, 7, 7] = .ok [7, 7, 7] ∧
+    (∀ op, op ∈ exColOps → op.col.tokenized = true → ownerOf op.session op.col ≠ exC) := by decide
+
+/-- the regenerated fact is load-bearing: a read path that took the column's `client_id` when there is one
+(the choice of the WRITE side) would hand A's value to a session of C -/
+example : onColumnTokenWith boxOps .columnOrSession exColStore exC (some exColA) [7, 7, 7] = .ok [1, 1, 1] := by decide
+
 /-- stored keys: a key can be saved for A (the premise of `stored_key_bound_v1/2` is satisfiable) and
 loads for A -/
 example : ∃ fs, v1Save boxOps [42] [] .storageSym exA [1, 2, 3] (exRnd 12) = some fs ∧
@@ -769,6 +1121,58 @@ example : dnString exNameA = [67, 78, 61, 98, 105, 108, 108, 44, 79, 85, 61, 112
     certIdentifier .distinguishedName (some ⟨⟨[], [], [], [], [], [], [], [], []⟩, 5⟩) = .err :=
   ⟨by decide, by decide, by intro x hx y hy h; exact h, by decide, by decide, by decide, by decide,
    ⟨_, _, rfl, by decide⟩, ⟨_, _, rfl, by decide⟩, ⟨_, _, rfl, by decide⟩, by decide⟩
+
+/-- certificate chains: two clients behind ONE intermediate CA (the server trusts the root only). A sends
+`leaf, intermediate`; B sends `leaf, intermediate` and appends A's certificate. Both states satisfy the crypto/tls
+contract; through both entry points A and B get different ids, B's id does not depend on what it appended; a
+connection whose own certificate is a CA certificate is refused where `getClientIDFromCertificate` validates. -/
+def exInterName : Name := ⟨[], [], [], [], [], [[69, 120]], [], [105, 110, 116], []⟩      -- O=Ex, CN=int
+def exInter : ConnCert := ⟨⟨exInterName, 7⟩, true, true⟩
+def exRootCert : ConnCert := ⟨⟨{ exInterName with commonName := [114] }, 1⟩, true, true⟩
+def exLeafA : ConnCert := ⟨exCertA, false, true⟩
+def exLeafB : ConnCert := ⟨exCertB, false, true⟩
+def exStateA : TlsState := ⟨[exLeafA, exInter], [[exLeafA, exInter, exRootCert]]⟩
+def exStateB : TlsState := ⟨[exLeafB, exInter, exLeafA], [[exLeafB, exInter, exRootCert]]⟩
+def exStateB' : TlsState := ⟨[exLeafB, exInter], [[exLeafB, exInter, exRootCert]]⟩
+def exStateCA : TlsState := ⟨[exInter], [[exInter, exRootCert]]⟩
+
+example : Handshaken exStateA ∧ Handshaken exStateB ∧ Handshaken exStateB' ∧ leafOf exStateA = some exLeafA ∧ leafOf exStateB = some exLeafB :=
+  ⟨⟨by decide, by intro ch h; simp only [exStateA, List.mem_singleton] at h; subst h; exact ⟨rfl, by decide⟩⟩,
+   ⟨by decide, by intro ch h; simp only [exStateB, List.mem_singleton] at h; subst h; exact ⟨rfl, by decide⟩⟩,
+   ⟨by decide, by intro ch h; simp only [exStateB', List.mem_singleton] at h; subst h; exact ⟨rfl, by decide⟩⟩, rfl, rfl⟩
+
+example :
+    (∃ a b, siteIdentity grpcSite (exExtractor .distinguishedName) exStateA = .ok a ∧
+      siteIdentity grpcSite (exExtractor .distinguishedName) exStateB = .ok b ∧
+      siteIdentity connSite (exExtractor .distinguishedName) exStateB = .ok b ∧
+      siteIdentity connSite (exExtractor .distinguishedName) exStateB' = .ok b ∧ a ≠ b) ∧
+    siteIdentity connSite (exExtractor .distinguishedName) exStateCA = .err ∧
+    siteIdentity grpcSite (exExtractor .serialNumber) ⟨[], []⟩ = .err ∧
+    siteIdentity connSite (exExtractor .serialNumber) ⟨[exLeafA], [[]]⟩ = .err :=
+  ⟨⟨_, _, rfl, rfl, rfl, rfl, by decide⟩, by decide, by decide, by decide⟩
+
+/-- the regenerated fact is load-bearing: a site that took the LAST certificate the peer sent would give A and B –
+two clients behind the same intermediate – the intermediate's id, and would serve B under A's id as soon as B
+appends A's (public) certificate to what it sends -/
+def exBadSite : CertSite := ⟨"", "wrapper.clientIDExtractor.ExtractClientID", ["PeerCertificates[len(PeerCertificates)-1]"],
+  [["len(VerifiedChains)==0", "len(PeerCertificates)==0"]]⟩
+
+example : siteIdentity exBadSite (exExtractor .distinguishedName) exStateA = siteIdentity exBadSite (exExtractor .distinguishedName) exStateB' ∧
+    siteIdentity exBadSite (exExtractor .distinguishedName) exStateB = siteIdentity grpcSite (exExtractor .distinguishedName) exStateA ∧
+    (siteIdentity exBadSite (exExtractor .distinguishedName) exStateA).isOk = true := by decide
+
+/-- the other RPCs and the HTTP API: the tables are inhabited; a value tokenized over A's connection in a request
+NAMING B comes back to A's connection (naming B again) and stays a token for B's connection naming A; the query
+hash over B's connection naming A is B's; an HTTP handler ignores a smuggled id -/
+def exSrvOps : List SrvTokOp := [⟨exA, exB, [1, 1, 1], 4, [[7, 7, 7]]⟩]
+
+example : httpTable.length = 13 ∧ Served "Tokenize" ∧ ¬ Served "NoSuchRpc" ∧
+    serverCall true "Detokenize" (svcDetokenize boxOps (runSrvTok boxOps "Tokenize" [] exSrvOps) 4) .err (some exA) ⟨exB, [7, 7, 7]⟩ = .ok [1, 1, 1] ∧
+    serverCall true "Detokenize" (svcDetokenize boxOps (runSrvTok boxOps "Tokenize" [] exSrvOps) 4) .err (some exB) ⟨exA, [7, 7, 7]⟩ = .ok [7, 7, 7] ∧
+    serverCall true "Detokenize" (svcDetokenize boxOps (runSrvTok boxOps "Tokenize" [] exSrvOps) 4) .err none ⟨exA, [7, 7, 7]⟩ = .err ∧
+    serverCall true "GenerateQueryHash" (svcQueryHash boxOps (fun id => if id = exB then some [4, 5, 6] else none)) .err (some exB) ⟨exA, exMsg⟩
+      = .ok (generateHash boxOps [4, 5, 6] exMsg) ∧
+    (httpTable.map fun row => httpHandler row (fun r => r.clientId) (some exB) exA []) = List.replicate 13 exB := by decide
 
 /-- the registration table is inhabited; the server ignores a forged id on a concrete RPC of every service -/
 example : registrations.length = 6 ∧
